@@ -33,3 +33,23 @@ package interpreter
 //@   requires allowListWF()
 //@   callpre (reflect.Value).Call false
 //@   callpre (reflect.Value).Method false
+
+// ---- path parameters re-derived by the interpreter (C05) ---------------------------------
+// The request path is cut at its FIRST '?'; pattern and path are compared segment by segment;
+// every ':name' segment binds name to the request segment at the same position.
+//@ spec func noQuery(p string) string = ite(libcall(strings.Index, p, "?") != -1, p[0:libcall(strings.Index, p, "?")], p)
+//@ spec func trimSl(p string) string = libcall(strings.Trim, p, "/")
+//@ spec func isPar(seg string) bool = libcall(strings.HasPrefix, seg, ":")
+//@ func extractPathParams
+//@   modifies nothing
+//@   ensures err == nil ==> result != nil && fnlen(strings.Split, trimSl(path), "/") == fnlen(strings.Split, trimSl(noQuery(actualPath)), "/")
+//@   ensures err == nil ==> forall(i, 0, fnlen(strings.Split, trimSl(path), "/"), !isPar(fnat(strings.Split, trimSl(path), "/", i)) ==> fnat(strings.Split, trimSl(path), "/", i) == fnat(strings.Split, trimSl(noQuery(actualPath)), "/", i))
+//@   ensures err == nil ==> forall(i, 0, fnlen(strings.Split, trimSl(path), "/"), isPar(fnat(strings.Split, trimSl(path), "/", i)) ==> has(result, libcall(strings.TrimPrefix, fnat(strings.Split, trimSl(path), "/", i), ":")))
+//@   ensures err == nil ==> forall(i, 0, fnlen(strings.Split, trimSl(path), "/"), isPar(fnat(strings.Split, trimSl(path), "/", i)) && forall(j, i + 1, fnlen(strings.Split, trimSl(path), "/"), isPar(fnat(strings.Split, trimSl(path), "/", j)) ==> libcall(strings.TrimPrefix, fnat(strings.Split, trimSl(path), "/", j), ":") != libcall(strings.TrimPrefix, fnat(strings.Split, trimSl(path), "/", i), ":")) ==> result[libcall(strings.TrimPrefix, fnat(strings.Split, trimSl(path), "/", i), ":")] == fnat(strings.Split, trimSl(noQuery(actualPath)), "/", i))
+//@   ensures err != nil ==> result == nil
+//@   ensures err != nil ==> fnlen(strings.Split, trimSl(path), "/") != fnlen(strings.Split, trimSl(noQuery(actualPath)), "/") || exists(i, 0, fnlen(strings.Split, trimSl(path), "/"), !isPar(fnat(strings.Split, trimSl(path), "/", i)) && fnat(strings.Split, trimSl(path), "/", i) != fnat(strings.Split, trimSl(noQuery(actualPath)), "/", i))
+//@   loop 1 invariant 0 <= i && i <= len(pathParts) && params != nil && fresh(params) && len(pathParts) == len(actualParts)
+//@   loop 1 invariant forall(k, 0, len(pathParts), pathParts[k] == fnat(strings.Split, trimSl(path), "/", k)) && forall(k, 0, len(actualParts), actualParts[k] == fnat(strings.Split, trimSl(noQuery(actualPath)), "/", k))
+//@   loop 1 invariant forall(k, 0, i, !isPar(pathParts[k]) ==> pathParts[k] == actualParts[k])
+//@   loop 1 invariant forall(k, 0, i, isPar(pathParts[k]) ==> has(params, libcall(strings.TrimPrefix, pathParts[k], ":")))
+//@   loop 1 invariant forall(k, 0, i, isPar(pathParts[k]) && forall(j, k + 1, i, isPar(pathParts[j]) ==> libcall(strings.TrimPrefix, pathParts[j], ":") != libcall(strings.TrimPrefix, pathParts[k], ":")) ==> params[libcall(strings.TrimPrefix, pathParts[k], ":")] == actualParts[k])
